@@ -153,6 +153,10 @@ func (s Social) AuthenticatePostOutbox(c context.Context, w http.ResponseWriter,
 }
 
 func (a *App) cb(c context.Context, proto, name string) error {
+	if a.syncMu != nil {
+		a.syncMu.Lock()
+		defer a.syncMu.Unlock()
+	}
 	_, err := a.point(c, proto+".cb."+name, "", true)
 	if r := reqOf(c); r != nil {
 		r.CBLog = append(r.CBLog, fmt.Sprintf("%s.%s@%d", proto, name, len(a.Log)-1))
